@@ -153,6 +153,16 @@ CLAIMS = {
                 "host/scheme comparison of can_redirect_auth_header on real URIs is not decided (Uri parsing out of reach)",
         "technique": "bounded model checking of the real code (Kani/CBMC): concrete minimal scenarios",
     },
+    "C15": {
+        "text": "Decided: the redirect state is entered exactly for 3xx statuses other than 304 (branch predicate for all status codes) "
+                "and reports that status; for 307 and 308 the redirect is not followed at all for POST, PUT, PATCH and DELETE (real "
+                "as_new_flow on the eight (method, status) pairs, both auth policies). NOT decided: the method a FOLLOWED redirect is "
+                "rewritten to (GET/HEAD table) - building the new flow inside as_new_flow does not finish under CBMC.",
+        "design_ref": "DESIGN.md §3 C15, §8.8",
+        "note": "reduced claim; URL resolution stubbed (C14 not claimed); a change that makes one of the eight pairs 'followed' shows "
+                "up as a timeout (exit 2), not as a replayed violation",
+        "technique": "bounded model checking of the real code (Kani/CBMC): concrete (method, status) cells + branch predicate over all status codes",
+    },
     "C16": {
         "text": "Two minimal scenarios on the real set_header / unset_header / headers / headers_len: a cookie the caller adds to a "
                 "redirected request is effective although the inherited cookie is suppressed; a header added in the prepare state is "
@@ -173,10 +183,6 @@ NOT_APPLICABLE["C05"] = ("response-head glue builds an http::Response (http::res
                          "prefix clauses that do not build a Response are decided under C11/C12 instead (DESIGN.md §3 C05)")
 NOT_APPLICABLE["C20"] = ("same code path as C05 (try_parse_response / try_parse_request build http values from httparse output): out of reach for "
                          "CBMC within budget; not claimed (DESIGN.md §3 C20)")
-NOT_APPLICABLE["C15"] = ("the method-rewriting table is an if-chain inside Flow::<Redirect>::as_new_flow, which also resolves the URL (url crate), "
-                         "rebuilds a flow (Flow::new) and parses three header names; one concrete (GET, 302) cell with the URL resolution stubbed did "
-                         "not finish in 30 min / 18 GB. Only its entry condition (redirect state exactly for 3xx other than 304, reported status) is "
-                         "decided, under C09/C10 (c09_pred_readiness_and_branches, c10_verdict_*); the table itself is not claimed")
 for _p in ["C01", "C02", "C03", "C05", "C06", "C07", "C08", "C09", "C10", "C11", "C12", "C13", "C15", "C16", "C17",
            "C18", "C19", "C20"]:
     if _p not in CLAIMS:
